@@ -25,7 +25,7 @@ RULE = (
     "pause answers; seeded sampling, one fault per run; non-trivial = the fault fired inside an in-flight run (update or writer "
     "region); distinct = distinct (scenario digest incl. fault)"
 )
-BUDGET = {"quick": {"runs": 3000, "chunk": 25}, "thorough": {"runs": 250000, "chunk": 50}}
+BUDGET = {"quick": {"runs": 3000, "chunk": 25}, "thorough": {"runs": 150000, "chunk": 50, "max_wall": 9000}}
 COMPONENTS = {
     "real": ["Runner loop incl. KeyboardInterrupt handling", "DataHandler (exclusive create, tmp file, temp dir, close)", "TDGLSolver.solve teardown / Solution assembly", "h5py/HDF5 on a real scratch directory", "TDGLSolver.update (Engine A runs)"],
     "stub": ["physics update in Engine B runs", "input() (scripted answers)", "monitor subprocess", "temp-dir factory (recorded, real directories)", "ENOSPC raised at the line/stage boundary of the writer, not by the kernel at flush time"],
